@@ -2,7 +2,7 @@
 # usage: lib/regress_seeded.sh [repo] [parallel]  - re-runs the quick check of the owning property on every seeded
 # change (scratch worktree of <repo> with patch.diff applied, VERIF_REPO), one lane per property, <parallel> lanes
 # at a time; prints one line per seeded change: name property violation_lines summary
-cd /verif
+cd "$(dirname "$(readlink -f "$0")")/.."
 REPO=${1:-/repo}
 PAR=${2:-5}
 export GOFLAGS=-mod=mod GOPROXY=off
